@@ -202,7 +202,16 @@ func checkC29(r *core.Run, p *core.Program) {
 				}
 				lit, ok := d.Call.Fun.(*ast.FuncLit)
 				if !ok {
-					return true
+					// `defer helper(&err)`: the helper of the same package is the deferred function
+					cal := callee(info, d.Call)
+					if cal == nil || cal.Pkg() != pkg.Types {
+						return true
+					}
+					hd := p.FuncDecl(cal)
+					if hd == nil || hd.Body == nil {
+						return true
+					}
+					lit = &ast.FuncLit{Body: hd.Body}
 				}
 				var recCall *ast.CallExpr
 				ast.Inspect(lit.Body, func(k ast.Node) bool {
